@@ -145,8 +145,14 @@ def run_case(t, h, th, fp, fr, conf, exp, o, r, rec):
         spellings = set()
     spellings.add(repr(h))
     spellings.add(repr(th.hint))
+    # One object for all six entry points: rebuilding it could change the iteration order of sets keyed on id()-hashed
+    # members, i.e. hand different inputs to the entry points.  (One-shot iterators are rebuilt: a check must not
+    # consume them, but that is C10's concern.)
+    oneshot = o[0] == 'c' and o[1] in ('gen', 'iter')
+    x = O.mk(o)
     for entry in ENTRIES:
-        x = O.mk(o)
+        if oneshot:
+            x = O.mk(o)
         del rec[:]
         try:
             if entry == 'is_bearable':
@@ -225,6 +231,12 @@ def check_hint(t, confsel, gen, part, tier, seed):
             lst = lst[seed % step::step]
         objs += [(o, (0, 2 ** 32 - 1)) for o in lst]
     objs += [(o, tuple(range(6))) for o, n, i in (ob if tier != 'quick' else ob[:18])]
+    mx = gen.mixed(t)
+    if tier == 'quick' and len(mx) > 14:
+        step = -(-len(mx) // 14)
+        mx = mx[seed % step::step]
+    seen = {o for o, _ in objs}
+    objs += [(o, tuple(range(6))) for o in mx if o not in seen]
     for cname, (conf, exp, kw) in confsel.items():
         try:
             with warnings.catch_warnings():
@@ -267,8 +279,8 @@ def _work(shard):
             'outcomes': set()}
     gen = O.Gen()
     core = _STATE['core']
-    for idx in range(shard, len(hints), NSHARDS):
-        t = hints[idx]
+    for idx, t in enumerate(_STATE['shards'][shard]):
+        idx = idx * NSHARDS + shard
         part['cover']['hints'] += 1
         if t in core:
             sel = tbl
@@ -286,8 +298,9 @@ def run(ctx):
     hints = HE.hints(ctx.tier)
     core = set(HE.level0()[:60] + HE.reps1('all') + HE.reps2()) if ctx.quick else set(hints[::3])
     _STATE.update(tier=ctx.tier, seed=ctx.seed, hints=hints, tbl=conf_table(), core=core)
+    _STATE['shards'] = HE.shards(hints, NSHARDS)
     tot, outcomes = {}, set()
-    for part in ctx.pmap(_work, range(NSHARDS)):
+    for part in ctx.pmap(_work, range(NSHARDS), fresh=True):
         for k, v in part['cover'].items():
             tot[k] = tot.get(k, 0) + v
         outcomes |= set(map(tuple, part['outcomes']))
